@@ -428,10 +428,18 @@ pub fn bfs(roots: &[(RootDesc, Board)], bounds: &Bounds, mon: &dyn Monitor, sink
 /// Stateless depth-first exploration from one root (no visited set; every node is checked).
 pub fn dfs(root: &RootDesc, board: &Board, bounds: &Bounds, mon: &dyn Monitor, sink: &Sink, t: &mut Tally) {
     let mut path = Vec::new();
-    dfs_rec(root, board, bounds, mon, sink, t, &mut path, 0);
+    dfs_rec(root, board, bounds, mon, sink, t, &mut path, 0, None);
 }
 
-fn dfs_rec(root: &RootDesc, board: &Board, bounds: &Bounds, mon: &dyn Monitor, sink: &Sink, t: &mut Tally, path: &mut Vec<Act>, nulls: u8) {
+/// Like `dfs`, but only the moves in `first` are expanded at the root (its other edges are still
+/// shown to the monitor); deeper plies are unrestricted.
+pub fn dfs_first(root: &RootDesc, board: &Board, bounds: &Bounds, mon: &dyn Monitor, sink: &Sink, t: &mut Tally, first: &[refmodel::Mv]) {
+    let mut path = Vec::new();
+    dfs_rec(root, board, bounds, mon, sink, t, &mut path, 0, Some(first));
+}
+
+#[allow(clippy::too_many_arguments)]
+fn dfs_rec(root: &RootDesc, board: &Board, bounds: &Bounds, mon: &dyn Monitor, sink: &Sink, t: &mut Tally, path: &mut Vec<Act>, nulls: u8, first: Option<&[refmodel::Mv]>) {
     let depth = path.len();
     let pos = alpha(board);
     let key = Key::of(&pos);
@@ -458,13 +466,13 @@ fn dfs_rec(root: &RootDesc, board: &Board, bounds: &Bounds, mon: &dyn Monitor, s
                 let child = apply(board, Act::Move(m)).map(Some);
                 t.transitions += 1;
                 mon.edge(&v, Act::Move(m), &child, t, sink);
-                if expand {
+                if expand && first.map_or(true, |f| f.contains(&m)) {
                     if let Ok(Some(cb)) = child {
                         children.push((Act::Move(m), cb));
                     }
                 }
             }
-            if nulls < bounds.max_nulls || (fe && bounds.max_nulls > 0) {
+            if first.is_none() && (nulls < bounds.max_nulls || (fe && bounds.max_nulls > 0)) {
                 let child = guarded(|| board.null_move());
                 t.transitions += 1;
                 mon.edge(&v, Act::Null, &child, t, sink);
@@ -478,7 +486,7 @@ fn dfs_rec(root: &RootDesc, board: &Board, bounds: &Bounds, mon: &dyn Monitor, s
     }
     for (a, cb) in children {
         path.push(a);
-        dfs_rec(root, &cb, bounds, mon, sink, t, path, nulls + if a == Act::Null { 1 } else { 0 });
+        dfs_rec(root, &cb, bounds, mon, sink, t, path, nulls + if a == Act::Null { 1 } else { 0 }, None);
         path.pop();
     }
 }
